@@ -36,6 +36,7 @@ Pool ==
     With(Base, "env", E(FALSE, ("A" :> "1") @@ ("B" :> "2"))), With(Base, "env", E(FALSE, ("A" :> "1B") @@ ("" :> "2"))),
     With(Base, "plugins", PL(FALSE, <<[src |-> "./ab", cfg |-> "lit:c"]>>)), With(Base, "plugins", PL(FALSE, <<[src |-> "./a", cfg |-> "lit:bc"]>>)),
     With(Base, "plugins", PL(FALSE, <<[src |-> "./a", cfg |-> "null"], [src |-> "./b", cfg |-> "null"]>>)), With(Base, "plugins", PL(FALSE, <<[src |-> "./a./b", cfg |-> "null"]>>)),
+    With(Base, "plugins", PL(FALSE, <<[src |-> "my-org/deploy#v1", cfg |-> "null"]>>)), With(Base, "plugins", PL(FALSE, <<[src |-> "my-org/deploy-buildkite-plugin#v1", cfg |-> "null"]>>)),
     \* step env entry versus pipeline env entry of the same name
     With(Base, "env", E(FALSE, ("A" :> "1"))), [Base EXCEPT !.penv = ("A" :> "1")],
     [With(Base, "env", E(FALSE, ("A" :> "1"))) EXCEPT !.penv = ("A" :> "pa")],          \* shadowed: same as the step-env-only one
